@@ -117,7 +117,13 @@ func topoSweep(r *Run, aspect string) {
 	if !r.Want("transports") {
 		return
 	}
-	for _, kind := range topoKinds {
+	kinds := append([]string{}, topoKinds...)
+	if aspect == "cancel" || aspect == "deadline" {
+		// … and once more with stats handlers installed on both sides (what they are handed must not
+		// change what the handler's context does)
+		kinds = append(kinds, "chan+stats")
+	}
+	for _, kind := range kinds {
 		if r.NumViolations() > 4 {
 			return
 		}
@@ -125,13 +131,18 @@ func topoSweep(r *Run, aspect string) {
 		scen := "transports." + aspect
 		r.Progress(scen, in)
 		var dopts []goat.DialOption
+		var sopts []goat.ServerOption
+		if strings.HasSuffix(kind, "+stats") {
+			dopts = append(dopts, goat.WithStatsHandler(NewRecorder("c")))
+			sopts = append(sopts, goat.StatsHandler(NewRecorder("s")))
+		}
 		topoRec = nil
 		if aspect == "metadata" {
 			// the client has no call options for unary response metadata: a stats handler sees it
 			topoRec = NewRecorder("c")
 			dopts = append(dopts, goat.WithStatsHandler(topoRec))
 		}
-		t, err := newTopo(kind, dopts, nil)
+		t, err := newTopo(strings.TrimSuffix(kind, "+stats"), dopts, sopts)
 		if err != nil {
 			r.Count(scen + ".no_" + kind)
 			continue
@@ -227,6 +238,30 @@ func topoAspect(r *Run, t *topo, aspect string, bad func(sub, detail string, obs
 				return b
 			})
 			checkStream(r, "transports.stream."+t.kind, o, log, map[string]any{"transport": t.kind, "client": client})
+		}
+		// several streams at once, each with its own sender goroutine and messages of a few KiB (the
+		// callers' writes meet on the one transport): every stream gets back exactly its own sequence
+		{
+			var wg sync.WaitGroup
+			obs := make([]*StreamObs, 6)
+			for k := range obs {
+				wg.Add(1)
+				go func(k int) {
+					defer wg.Done()
+					tag := fmt.Sprintf("topo-%s-par-%d", t.kind, k)
+					obs[k] = runStreamCall(context.Background(), t.cc, mBidi, tag, "echo", "conc", 12, func(i int) []byte {
+						b := make([]byte, 2000+137*k+i)
+						for j := range b {
+							b[j] = byte(k*31 + i*7 + j)
+						}
+						return b
+					})
+				}(k)
+			}
+			wg.Wait()
+			for k, o := range obs {
+				checkStream(r, "transports.stream."+t.kind, o, log, map[string]any{"transport": t.kind, "concurrent_streams": len(obs), "stream": k, "message_bytes": "2000+"})
+			}
 		}
 		// streams whose handler returns at once while the caller's half-close is still under way (its write
 		// is cut short by the stream's own end): the connection serves the next stream like the first
